@@ -755,8 +755,19 @@ impl JobServerHandle {
             // in order for the universe to stay in balance.
             state.destroy_tokens(1);
         }
-        let (r, w) = make_pipe(50).map_err(RedoError::opaque_error)?;
-        match unsafe { unistd::fork() }.map_err(RedoError::opaque_error)? {
+        // If the job cannot be started after all, nobody inherits that token: take it back,
+        // or it is gone from the jobserver for good.
+        let restore_token = |e| {
+            self.state.borrow_mut().create_tokens(1);
+            RedoError::opaque_error(e)
+        };
+        let (r, w) = make_pipe(50).map_err(restore_token)?;
+        let forked = unsafe { unistd::fork() }.map_err(|e| {
+            let _ = unistd::close(r);
+            let _ = unistd::close(w);
+            restore_token(e)
+        })?;
+        match forked {
             ForkResult::Child => {
                 #[cfg(feature = "verif-hooks")]
                 crate::verif::point("child-start", &reason);
